@@ -31,7 +31,7 @@ MANIFEST = dict(
     text='Bounded symbolic decision of statement-level well-formedness: whatever paths/rules/dep orders (within the bound) are handed to NinjaBuild, the text it '
          'writes is a valid manifest for a reference Ninja parser, references only defined rules, round-trips every path list, and two producers of one path are '
          'rejected; closure for two edge kinds of compiled targets (unity extraction, module scanning); and the GRAPH-LEVEL clauses (defined rules, one producer per path, acyclic, every input exists or is produced, reachability from all / meson-test-prereq / meson-benchmark-prereq) on whole configurations - real Interpreter and NinjaBackend.generate - of generated projects WITHOUT a compiled language (custom targets with 1-2 outputs, generator, configure_file, alias / run targets, tests, a subdirectory) whose flags and indices are symbolic. Projects with compiled targets are outside the graph-level claim.',
-    note='Partial claim. Trusted: symx engine, z3, reference Ninja parser. Bounds: <=2 rules, <=2 build statements (3 in thorough for the duplicate-output rule), paths <=2 chars; project-graph: 3 custom targets, what B and C consume (7 x 5 shapes) and the consumers (7 alias/run shapes x 11 test shapes) varied separately in quick, jointly in thorough.')
+    note='Partial claim. Trusted: symx engine, z3, reference Ninja parser. Bounds: <=2 rules, <=2 build statements (3 in thorough for the duplicate-output rule), paths <=2 chars; project-graph: 3 custom targets, what B and C consume (7 x 5 shapes) and the consumers (7 alias/run shapes x 11 test shapes) varied separately; thorough: every flag symbolic in every configuration.')
 
 nb = ME = None
 
@@ -328,14 +328,14 @@ def ob_dyndeps():
     return h
 
 
-def ob_project(dim):
+def ob_project(dim, full=False):
     """GRAPH level: a whole configuration (real Interpreter, real NinjaBackend.generate) of a generated project without a compiled language - see harness/proj.py.
     build.ninja, read back with the reference parser, is well-formed and closed; everything built by default is reachable from `all`, everything a test /
     benchmark runs or depends on from meson-test-prereq / meson-benchmark-prereq, what an alias or run target names from that target; every custom target's
     statement consumes exactly the inputs the definition gives it"""
     def h():
         from harness import proj as PJ
-        pr, c, g = PJ.run_project(dim)
+        pr, c, g = PJ.run_project(dim, full)
         PJ.wellformed(c, g)
         for t in ('A', 'B', 'C'):
             for o in pr.outs[t]: check(o in g.producer, 'every output of a custom target is produced by a statement')
@@ -389,7 +389,7 @@ def obligations(tier):
     for n, pl in ((2, 1), (2, 2)) if q else ((2, 1), (2, 2), (3, 1), (3, 2)):
         out.append(Obligation('producers[%d,%d]' % (n, pl), ob_producers(n, pl), dict(statements=n, outputs_each='1-2', path_len=pl), labels=('rejected', 'accepted'), max_paths=3000000))
     out.append(Obligation('dyndeps-closure', ob_dyndeps(), dict(real='NinjaBackend.generate_dependency_scan_target / should_use_dyndeps_for_target / get_dep_scan_file_for', targets='an executable + 1-2 static libraries (optionally chained)', per_target='plain C | plain C++ | C++ with a modules flag | Fortran', generation_order='both'), labels=('scanning', 'none')))
-    for dim in (('inputs', 'consumers') if q else ('all',)):
-        out.append(Obligation('project-graph[%s]' % dim, ob_project(dim), dict(real='Interpreter.run + NinjaBackend.generate on a generated project without a compiled language', targets='3 custom targets (1-2 outputs), generator, configure_file, alias / run target, test / benchmark, subdirectory',
-                              symbolic='build_by_default x2, build_always_stale, install, the index into a multi-output target', varies=dim), labels=('done', 'default', 'test') if dim != 'inputs' else ('done', 'default', 'generator'), max_paths=2000000, path_timeout=300, classify=__import__('harness.proj', fromlist=['classify']).classify))
+    for dim in ('inputs', 'consumers'):
+        out.append(Obligation('project-graph[%s]' % dim, ob_project(dim, not q), dict(real='Interpreter.run + NinjaBackend.generate on a generated project without a compiled language', targets='3 custom targets (1-2 outputs), generator, configure_file, alias / run target, test / benchmark, subdirectory',
+                              symbolic='the index into a multi-output target, install, preserve_path' + (', build_by_default x2 where the consumers vary' if q else ', build_by_default x2, build_always_stale: all of them in every configuration'), varies=dim), labels=('done', 'default', 'test') if dim != 'inputs' else ('done', 'default', 'generator'), max_paths=2000000, path_timeout=300, classify=__import__('harness.proj', fromlist=['classify']).classify))
     return out
